@@ -32,6 +32,25 @@ def number (m : Counters) (t : Tag) : Counters × Tag :=
   | none => (setKey m t (some Gen.loopInit), t ++ [Gen.loopFirstSuffix])
   | some c => (setKey m t.dropLast (some (c + Gen.loopIncr)), t.dropLast ++ [c + Gen.loopIncr])
 
+/-- `LoopCombinator.restore(from_tags)`: for every `(prefix, iteration)` the counter of `prefix` becomes
+    `max(iteration_map.get(prefix, n), n)` with `n` the last component of `iteration` -/
+def restoreCounters (m : Counters) : List (Tag × Tag) → Counters
+  | [] => m
+  | (pre, it) :: r =>
+      let n := it.getLast?.getD 0
+      restoreCounters (setKey m pre (some (Gen.loopRestore ((m pre).getD n) n))) r
+
+/-- an arrival, or a restore, at the combinator -/
+inductive NEv where
+  | arrive (t : Tag)
+  | restore (pairs : List (Tag × Tag))
+
+/-- tags given to the arrivals of a sequence of arrivals and restores -/
+def numberEvs : Counters → List NEv → List Tag
+  | _, [] => []
+  | m, .arrive t :: r => (number m t).2 :: numberEvs (number m t).1 r
+  | m, .restore ps :: r => numberEvs (restoreCounters m ps) r
+
 /-- tags given to a sequence of arrivals -/
 def numberAll : Counters → List Tag → List Tag
   | _, [] => []
@@ -156,6 +175,31 @@ end SFV.Loop
 
 namespace SFV.Loop
 
+/-! ### `LoopCombinatorStep.run` with one input port, as a whole: checklist, the combinator's numbering, output log, status -/
+
+structure LCSt where
+  c : CSt := {}
+  cnt : Counters := fun _ => none      -- the LoopCombinator's `iteration_map`
+  out : List Tag := []                 -- tags of the tokens put on the output port
+  status : Status := .skipped
+  terminated : Option Status := none   -- the step left its loop and terminated with this status
+
+def lcstep (s : LCSt) (e : CEv) : LCSt :=
+  if !s.c.reading then s else
+  let s1 : LCSt := match e with
+    | .data tag => { s with cnt := (number s.cnt tag).1, out := s.out ++ [(number s.cnt tag).2] }   -- one item: every token is a combination
+    | .iterTerm _ => s
+    | .term st => { s with status := reduce2 s.status st }
+  let s2 : LCSt := { s1 with c := cstep s.c e }
+  -- one port: when it is no longer read `input_tasks` is empty and the step terminates
+  if !s2.c.reading then { s2 with terminated := some (getStatus s2.status s2.out.isEmpty) } else s2
+
+def lcrun (es : List CEv) : LCSt := es.foldl lcstep {}
+
+end SFV.Loop
+
+namespace SFV.Loop
+
 /-! ### the closed loop of one instance: combinator → loop-when → body → back edge -/
 
 /-- one trip: the combinator numbers the arrival; the loop-when step evaluates the condition on the numbered inputs:
@@ -173,5 +217,20 @@ def cycle {V} (cond : Tag → Bool) (body : Tag → V) : Nat → Counters → Ta
       r.2.1 :: (match r.2.2 with
                 | some t => cycle cond body f r.1 t
                 | none => [])
+
+end SFV.Loop
+
+namespace SFV.Loop
+
+/-! ### provenance recorded by `LoopOutputStep.run` (`input_token_ids = get_entity_ids(self.token_map.get(prefix))`) -/
+
+/-- provenance of the outputs emitted by one more token: the body outputs collected for the instance, in arrival order -/
+def provOfStep {V} (m : Method) (s : St V) (e : Ev V) : List (Tag × List (Tok V)) :=
+  let s' := step m s e
+  (s'.out.drop s.out.length).map (fun o => (o.tag, s'.toks o.tag))
+
+def runProv {V} (m : Method) : St V → List (Ev V) → List (Tag × List (Tok V))
+  | _, [] => []
+  | s, e :: es => provOfStep m s e ++ runProv m (step m s e) es
 
 end SFV.Loop
